@@ -173,7 +173,12 @@ def impl_level(rep, impl):
             mc.write_mc(s, 'EqualizerImplTrace', name,
                         consts(n, ALL_BEHS + ['unreadable'], rate, list(range(1, n + 1))), invariants=['TraceInv'],
                         spec='TraceSpec', constraints=['Report'])
-            r, acc, rej = tracecheck.validate(s, name, name + '.cfg', traces)
+            try:
+                r, acc, rej = tracecheck.validate(s, name, name + '.cfg', traces)
+            except tlc.TLCError as ex:   # an invariant of the specification failed on a real execution: drift as well
+                st['rejected_as_drift'] += len(traces)
+                st.setdefault('tlc_errors', []).append(str(ex)[-400:])
+                continue
             rep.add_tlc('EqualizerImplTrace (N=%d, rate=%d): %d scheduler logs against the actions of Equalizer.tla'
                         % (n, rate, len(traces)), r)
             rep.accepted += len(acc)
